@@ -78,5 +78,15 @@ def h(cfg):
     check_all(items)
 
 
+INHERIT = dict(sched.PLAIN, n=4, fixed_parent=[-1, -1, 1, -1], E=8, scenarios=[(0, -1)])
+INHERIT_B = dict(sched.PLAIN, n=4, fixed_parent=[-1, -1, -1, 2], E=8, scenarios=[(0, -1)])
+SUMMARY_SUCC = dict(sched.PLAIN, n=4, fixed_parent=[-1, -1, 1, 1], resources=['r', 'q'], E=8, scenarios=[(0, -1)])
+
+
 def harnesses(tier):
-    return sched.standard_harnesses(h, tier, forward=False)
+    hs = sched.standard_harnesses(h, tier, forward=False)
+    for x in hs:
+        if 'profiles' in x['cfg']:
+            x['cfg'] = dict(x['cfg'], profiles=dict(x['cfg']['profiles'], **{'n4-inherited': INHERIT, 'n4-inherited-b': INHERIT_B,
+                                                                             'n4-summary-succ': SUMMARY_SUCC}))
+    return hs
